@@ -126,6 +126,17 @@ def replay(cases):
             pts = [p1, p2, b1]
             bases = {"B1": b1, "B2": b2, "first": p1}
             case = {"hist": label, "points": pts, "bases": {"B1": b1, "B2": b2}}
+            # results are VALUES of their own: a base converted onto itself gives (0, 0, 0); that result is then edited in place by its
+            # owner (translate) - a later conversion of a base onto itself is still (0, 0, 0)
+            try:
+                with core.quiet():
+                    o1 = GeoCoords(*b2).toENUCoords(GeoCoords(*b2))
+                    o1.translate(100.0, 50.0)
+                    o2 = GeoCoords(*b1).toENUCoords(GeoCoords(*b1))
+                if max(abs(o2.getX()), abs(o2.getY()), abs(o2.getZ())) > 1e-3:
+                    viol.append(("enu/base-not-origin", "base %r converted onto itself after an earlier such result was translated in place: %r" % (b1, triple(o2)), case))
+            except (Exception, SystemExit) as ex:
+                viol.append(("point/raised", "base onto itself raised %r" % (ex,), case))
             # the caller's base objects: created once, handed to every conversion that names them, never to be modified
             objs = {nm: {"geo": GeoCoords(*bv), "ecef": ECEFCoords(*ref_geo2ecef(*bv))} for nm, bv in bases.items()}
             frozen = {nm: {kd: triple(o) for kd, o in d.items()} for nm, d in objs.items()}
